@@ -58,27 +58,42 @@ class C08(PropBase):
     coq_dirs = ["Base", "Gen", "C08"]
     bins = ["c08"]
     translators = ["c08_tables.py"]
-    rule = ("cases = (table kind, list of (base,size,tag), query addresses); exhaustive over base 0..4 x size 0..2 x tag 0..1 "
+    rule = ("cases = (table kind of 17, list of (base,size,tag), query addresses); exhaustive over base 0..4 x size 0..2 x tag 0..1 "
             "lists up to the tier's length, replayed at the top of the address space, plus random u64 lists with a boundary pool; "
             "a case is non-trivial when the built table is non-empty and at least one entry was dropped, merged or rejected, "
             "or the table has >= 2 ranges; distinct = distinct case lines")
     trusted_base = [
         "Coq 8.16.1 kernel (vm_compute used only in the non-vacuity Examples)",
-        "model C08/Model.v written by hand from traits.rs / parser.rs / range-map 0.2.0 / minidump.rs; tied to the code by the correspondence run",
+        "model C08/Model.v, C08/WinModel.v written by hand from traits.rs / parser.rs / range-map 0.2.0 / minidump.rs; tied to the code by "
+        "(a) translate/c08_tables.py, which regenerates every memory_range(), both into_rangemap_safe copies, insert_win_stack_info, the "
+        "line-record ranges, the module-list read filter and the index-valued builders from the source (Gen/C08Tables.v; statement structure "
+        "pinned literally, guards/operands/constants/operators translated) with C08/Tie.v proving them equal to the model, and (b) the correspondence run",
+        "the translator's reading of Rust syntax (regex templates over comment-stripped function bodies) and the harness's encoding of entries into "
+        "each builder's input (stream bytes, maps text, symbol-file text)",
         "extraction: ExtrOcamlBasic only; ocaml/zconv.ml + ocaml/c08/main.ml glue; harness/src/bin/c08.rs",
-        "std slice::binary_search_by modelled as the Rust >= 1.82 halving loop; sort_by_key modelled as a stable sort",
+        "std slice::binary_search_by modelled as the Rust >= 1.82 halving loop; sort_by_key modelled as a stable sort; range-map 0.2.0 "
+        "(Range::new assertion, try_from_iter/normalize, get, Range::contains/intersects) modelled by hand from its source",
     ]
     manifest = {
-        "text": "Theorems (Coq, all finite entry lists over u64, any value type): building never reaches the unwrap (c08_build_total), "
-                "output sorted/disjoint, lookup sound, isolated entries complete, the real binary search equals a linear scan, "
-                "unloaded-module lookup exact. The model is tied to the code by running both on exhaustive small lists (both ends of "
-                "the address space) and random u64 lists for nine table kinds in debug and release builds; an independent oracle "
-                "re-checks the property on the implementation's answers.",
-        "note": "Trusted: Coq kernel; hand-written model of traits.rs/parser.rs/range-map 0.2.0 (correspondence-checked, not verified); "
-                "ExtrOcamlBasic extraction + OCaml/Rust glue; std binary_search_by and stable sort modelled from their documented algorithms. No axioms.",
+        "text": "Theorems (Coq, all finite entry lists over u64, any value type, both build profiles where arithmetic can trap): building never "
+                "reaches the unwrap (c08_build_total, _parser), output sorted/disjoint, lookup sound, isolated entries complete, the real binary "
+                "search equals a linear scan (traits, parser and STACK WIN tables), unloaded-module lookup exact; index-valued tables: a lookup's or "
+                "by_addr's index is in bounds of the stored vector and names the entry whose own range it is filed under "
+                "(c08_indexed_table_exact, c08_indexed_lookup_in_bounds, c08_indexed_isolated_complete); STACK WIN frame-data/FPO tables "
+                "(insert_win_stack_info for every record, then the parser-local builder): never fail (subtraction, the unwrap after the repair, "
+                "the final unwrap), profile independent, sorted/disjoint with every entry filed under its own record's range, a lookup returns a "
+                "possibly shortened record of the file whose range contains the address, an isolated record is returned as written "
+                "(c08_win_*). The same statements hold for the definitions REGENERATED from the Rust source on every run (c08_gen_*: all eight "
+                "memory_range() constructors and the line-record ranges never trap and equal the model's, both merge loops, insert_win_stack_info, "
+                "the index-valued builders, the module-list read filter). The model is also run against the code on exhaustive small lists (both "
+                "ends of the address space) and random u64 lists for 17 table kinds (incl. Memory64, Unified* views, MinidumpModuleList::read from "
+                "stream bytes, STACK WIN tables) in debug and release builds; an independent oracle re-checks the property on the implementation's answers.",
+        "note": "Trusted: Coq kernel; the translator's templates and the hand-written model of range-map 0.2.0 / std sort and binary search "
+                "(correspondence-checked, not verified); ExtrOcamlBasic extraction + OCaml/Rust glue. No axioms.",
     }
-    assumptions = ["procfs maps-line parsing and scroll's Pread are exercised, not modelled",
-                   "insert_win_stack_info (STACK WIN overlap repair) is covered under C07"]
+    assumptions = ["procfs maps-line parsing, scroll's Pread and MinidumpModule::read's name/CodeView parsing are exercised, not modelled",
+                   "MinidumpUnloadedModuleList::read rejects the whole stream (Err, no panic) on one bad module: not covered, only from_modules is",
+                   "UnifiedMemoryList / UnifiedMemoryInfoList views are pinned as plain forwards by the translator and compared, not separately modelled"]
 
     def model_kind_line(self, line):
         kind, rest = line.split(" ", 1)
